@@ -188,8 +188,10 @@ def strat_fpm(tier):
         'same': st.booleans(),
         'Q': U.nice_float(0.4, 4).map(lambda v: round(v, 3)), 'shift': _shift(), 'phys': _phys(),
         'mkind': st.sampled_from(['real', 'complex', 'binary']), 'lyot': st.sampled_from(['none', 'real', 'complex']),
-        'which': st.sampled_from(['function', 'wavefront', 'wavefront-maskwf', 'babinet', 'babinet']), 'layout': U.layouts, 'seed': U.seeds,
-        'mags': st.tuples(_MAG, _MAG).map(list)})
+        'which': st.sampled_from(['function', 'wavefront', 'wavefront-maskwf', 'function-maskwf', 'babinet', 'babinet']), 'layout': U.layouts, 'seed': U.seeds,
+        'mags': st.tuples(_MAG, _MAG).map(list),
+        # a mask given as a Wavefront carries its own spacing; the separate fpm_dx argument may repeat it, be None, or (redundantly) name another value
+        'maskwf_dx': st.sampled_from(['same', 'same', 'none', 'other'])})
 
 
 def check_fpm(case, ctx):
@@ -233,10 +235,21 @@ def check_fpm(case, ctx):
         Ax = ctx.call(P.to_fpm_and_back, x, dx, efl, lam, m, fpm_dx, shift=sh)
         AHy = ctx.call(P.to_fpm_and_back_backprop, y, dx, lam, efl, m, fpm_dx, shift=sh)
         adjoint_check(ctx, Ax, x, AHy, y, 'to_fpm_and_back_backprop' + bsuffix, what)
+    elif which == 'function-maskwf':
+        mm = P.Wavefront(m, lam, fpm_dx, space='psf')
+        darg = {'same': fpm_dx, 'none': None, 'other': fpm_dx * 1.0833}[case.get('maskwf_dx', 'same')]
+        ctx.label('mask-wavefront:fpm_dx-argument:' + case.get('maskwf_dx', 'same'))
+        Ax = ctx.call(P.to_fpm_and_back, x, dx, efl, lam, mm, darg, shift=sh)
+        AHy = ctx.call(P.to_fpm_and_back_backprop, y, dx, lam, efl, mm, darg, shift=sh)
+        adjoint_check(ctx, Ax, x, AHy, y, 'to_fpm_and_back_backprop:mask-wavefront' + bsuffix, what + ' fpm_dx argument: ' + case.get('maskwf_dx', 'same'))
     elif which in ('wavefront', 'wavefront-maskwf'):
         mm = P.Wavefront(m, lam, fpm_dx, space='psf') if which.endswith('maskwf') else m
-        Ax = ctx.call(P.Wavefront(x, lam, dx).to_fpm_and_back, efl, mm, fpm_dx, shift=sh).data
-        AHy = ctx.call(P.Wavefront(y, lam, dx).to_fpm_and_back_backprop, efl, mm, fpm_dx, shift=sh).data
+        darg = {'same': fpm_dx, 'none': None, 'other': fpm_dx * 1.0833}[case.get('maskwf_dx', 'same')] if which.endswith('maskwf') else fpm_dx
+        if which.endswith('maskwf'):
+            ctx.label('mask-wavefront:fpm_dx-argument:' + case.get('maskwf_dx', 'same'))
+        fpm_dx_fwd = darg
+        Ax = ctx.call(P.Wavefront(x, lam, dx).to_fpm_and_back, efl, mm, fpm_dx_fwd, shift=sh).data
+        AHy = ctx.call(P.Wavefront(y, lam, dx).to_fpm_and_back_backprop, efl, mm, darg, shift=sh).data
         adjoint_check(ctx, Ax, x, AHy, y, 'Wavefront.to_fpm_and_back_backprop' + bsuffix, what)
         # return_more: the three planes
         pak = ctx.call(P.Wavefront(y, lam, dx).to_fpm_and_back_backprop, efl, mm, fpm_dx, shift=sh, return_more=True)
@@ -546,7 +559,10 @@ def strat_dm(tier):
         'dNout': st.sampled_from([0, 0, 8, -8, 7, -7, 16, 1, -1]),
         'shift': st.one_of(st.just([0, 0]), st.tuples(U.nice_float(-3, 3), U.nice_float(-3, 3)).map(lambda t: [round(t[0], 2), round(t[1], 2)])),
         'upsample': st.sampled_from([1, 1, 1, 0.5, 2, 1.5, 0.7, 0.9, 1.26, 1.35]), 'wfe': st.booleans(), 'width': st.sampled_from([1.0, 1.7, 2.5]),
-        'layout': U.layouts, 'seed': U.seeds})
+        'layout': U.layouts, 'seed': U.seeds,
+        # rectangular geometries: influence-function array wider than tall (extra columns), output size per axis ("Nout: int or tuple of int")
+        'ncols_extra': st.sampled_from([0, 0, 0, 8, 9, 16]), 'dNout_cols': st.one_of(st.none(), st.none(), st.sampled_from([0, 8, -8, 7, -7, 1, -1])),
+        'Nout_form': st.sampled_from(['int', 'tuple', 'list'])})
 
 
 def check_dm(case, ctx):
@@ -557,20 +573,26 @@ def check_dm(case, ctx):
         Nact -= 1          # shrink the lattice until it (and the tails of the influence functions) fit the array
     if (Nact // 2 + 1) * sep + 4 * case['width'] >= n // 2:
         ctx.exclude('actuator lattice does not fit the influence function array')
-    yy, xx = np.mgrid[:n, :n]
+    ncol = n + case.get('ncols_extra', 0)
+    yy, xx = np.mgrid[:n, :ncol]
     yy = yy - n // 2
-    xx = xx - n // 2
+    xx = xx - ncol // 2
     ifn = np.exp(-(xx * xx + yy * yy) / (2 * case['width'] ** 2))
-    nominal = int(n * ups)
-    Nout = nominal + case['dNout']
-    if Nout < 4:
+    nominal = (int(n * ups), int(ncol * ups))
+    dcols = case.get('dNout_cols')
+    Nout = (nominal[0] + case['dNout'], nominal[1] + (case['dNout'] if dcols is None else dcols))
+    if min(Nout) < 4:
         ctx.exclude('output too small')
     shift = tuple(case['shift'])
-    geom = 'pad' if Nout > nominal else ('crop' if Nout < nominal else 'same')
+    per_axis = tuple('pad' if o > m else ('crop' if o < m else 'same') for o, m in zip(Nout, nominal))
+    geom = per_axis[0] if per_axis[0] == per_axis[1] else 'rows-%s,cols-%s' % per_axis
     ctx.nt(geom != 'same' or shift != (0, 0) or ups != 1)
     ctx.label('geom:' + geom, 'shifted' if shift != (0, 0) else 'unshifted', 'upsample=%g' % ups, 'ifn-odd' if n % 2 else 'ifn-even',
-              'Nact-odd' if Nact % 2 else 'Nact-even', 'wfe' if wfe else 'sfe')
-    dm = ctx.call(DM, ifn, Nout, Nact, sep, shift, (0, 0, 0), ups)
+              'Nact-odd' if Nact % 2 else 'Nact-even', 'wfe' if wfe else 'sfe', 'ifn-square' if ncol == n else 'ifn-rectangular',
+              'Nout-square' if Nout[0] == Nout[1] else 'Nout-rectangular')
+    form = case.get('Nout_form', 'int')
+    Nout_arg = int(Nout[0]) if (form == 'int' and Nout[0] == Nout[1]) else (list(Nout) if form == 'list' else tuple(Nout))
+    dm = ctx.call(DM, ifn, Nout_arg, Nact, sep, shift, (0, 0, 0), ups)
     r = U.rng_of(case['seed'], 8)
     a = r.uniform(-1, 1, dm.actuators.shape)
     a2 = r.uniform(-1, 1, dm.actuators.shape)
@@ -584,7 +606,8 @@ def check_dm(case, ctx):
         dm.actuators[:] = act
         return np.array(ctx.call(dm.render, wfe), copy=True)
     Ra = render(a)
-    U.check_shape(Ra, (Nout, Nout), 'DM.render')
+    U.check_shape(Ra, Nout, 'DM.render' + ('' if per_axis[0] == per_axis[1] and Nout[0] - nominal[0] == Nout[1] - nominal[1] else ':per-axis-output-size'),
+                  'render() must return the requested Nout=%r (influence function %dx%d, upsample %g)' % (Nout_arg, n, ncol, ups))
     # linearity of the forward model (a precondition of the adjoint identity)
     Ra2 = render(a2)
     Rsum = render(0.5 * a - 2.0 * a2)
@@ -592,7 +615,7 @@ def check_dm(case, ctx):
     y = r.uniform(-1, 1, Ra.shape)
     render(a)
     g = ctx.call(dm.render_backprop, U.relayout(y.copy(), case.get('layout', 'C')), wfe)
-    adjoint_check(ctx, Ra, a, g, y, bucket, 'ifn %dx%d Nact=%d sep=%d Nout=%d shift=%r upsample=%g wfe=%r' % (n, n, Nact, sep, Nout, shift, ups, wfe), tol=1e-9)
+    adjoint_check(ctx, Ra, a, g, y, bucket, 'ifn %dx%d Nact=%d sep=%d Nout=%r shift=%r upsample=%g wfe=%r' % (n, ncol, Nact, sep, Nout_arg, shift, ups, wfe), tol=1e-9)
 
 
 CLAUSES = [
